@@ -18,7 +18,7 @@ use std::task::{Context, Poll, Waker};
 use std::time::Duration;
 use tokio::io::{AsyncBufRead, AsyncRead, AsyncWrite, ReadBuf};
 
-const RULE: &str = "one case = one execution of MuxStream::into_copy_bidirectional_with_buf over a scripted local byte stream (chunks of 1..8 KiB, Pending later woken by a controller, Pending never woken, partial writes, EOF at any position, \
+const RULE: &str = "one case = one execution of MuxStream::into_copy_bidirectional_with_buf over a scripted local byte stream (chunks of 1..8 KiB, Pending later woken by a controller, Pending never woken, partial writes, a shutdown that needs 1-4 polls (self-woken or woken later), EOF at any position, \
 an error at any position of read / write / flush / shutdown, in particular Ready(Err) right after Ready(Ok(data))) against a far application on a real endpoint pair that writes and finishes, aborts mid-transfer, or never reads (rwnd 1-4). \
 Oracle: the local side received exactly the far application's bytes and the far application exactly the script's bytes (position-addressed), every Push took one unit of credit (credit monitor attached), EOF on one side becomes a half-close on the other while the opposite direction still delivers, \
 the bridge resolves Ok((read, written)) with the true counts once both directions ended, and after an injected error it resolves with that error before the second quiescent point. Non-trivial = bytes crossed the bridge in at least one direction";
@@ -55,6 +55,12 @@ struct IoState {
     flush_err: Option<io::ErrorKind>,
     shutdown_err: Option<io::ErrorKind>,
     shutdown_called: bool,
+    /// poll_shutdown answers Pending this many more times before it completes (0 = completes at once); `s_delay_ms` > 0 = woken later by the controller
+    shutdown_pendings: u32,
+    s_delay_ms: u64,
+    s_waker: Option<Waker>,
+    s_wake_at: Option<tokio::time::Instant>,
+    shutdown_completed: bool,
     /// (what, virtual time) of the first injected error actually returned to the bridge
     error_returned: Option<(String, io::ErrorKind)>,
     calls: u64,
@@ -189,12 +195,28 @@ impl AsyncWrite for ScriptedIo {
         }
         Poll::Ready(Ok(()))
     }
-    fn poll_shutdown(self: Pin<&mut Self>, _cx: &mut Context<'_>) -> Poll<io::Result<()>> {
+    fn poll_shutdown(self: Pin<&mut Self>, cx: &mut Context<'_>) -> Poll<io::Result<()>> {
         let mut st = self.0.lock().unwrap();
         st.shutdown_called = true;
+        if st.s_wake_at.is_some() {
+            st.s_waker = Some(cx.waker().clone());
+            return Poll::Pending;
+        }
+        if st.shutdown_pendings > 0 {
+            // a local side that needs several polls to half-close (buffered writer flushing, TLS close_notify ...)
+            st.shutdown_pendings -= 1;
+            if st.s_delay_ms > 0 {
+                st.s_wake_at = Some(tokio::time::Instant::now() + Duration::from_millis(st.s_delay_ms));
+                st.s_waker = Some(cx.waker().clone());
+            } else {
+                cx.waker().wake_by_ref();
+            }
+            return Poll::Pending;
+        }
         if let Some(k) = st.shutdown_err.take() {
             return Poll::Ready(Err(Self::err(&mut st, "shutdown", k)));
         }
+        st.shutdown_completed = true;
         Poll::Ready(Ok(()))
     }
 }
@@ -204,7 +226,7 @@ async fn controller(io: ScriptedIo) {
     loop {
         let (next, done) = {
             let st = io.0.lock().unwrap();
-            let n = [st.r_wake_at, st.w_wake_at].into_iter().flatten().min();
+            let n = [st.r_wake_at, st.w_wake_at, st.s_wake_at].into_iter().flatten().min();
             (n, false)
         };
         let _ = done;
@@ -224,6 +246,12 @@ async fn controller(io: ScriptedIo) {
         if st.w_wake_at.is_some_and(|t| t <= now) {
             st.w_wake_at = None;
             if let Some(w) = st.w_waker.take() {
+                w.wake();
+            }
+        }
+        if st.s_wake_at.is_some_and(|t| t <= now) {
+            st.s_wake_at = None;
+            if let Some(w) = st.s_waker.take() {
                 w.wake();
             }
         }
@@ -314,6 +342,8 @@ fn one(st: &mut Stats, seed: u64) {
         _ => {}
     }
     let far_total = far_plan.total_bytes();
+    let shutdown_pendings = if rng.chance(1, 3) { rng.range(1, 4) as u32 } else { 0 };
+    let s_delay_ms = if rng.chance(1, 2) { rng.range(1, 3) } else { 0 };
     let opener = rng.below(2) as u8;
     let plan = StreamPlan { sid, opener, open_delay: 0, sides: [SidePlan::quiet(), far_plan.clone()], awaited: [true, true], host_extra: vec![], port: 13 };
     let io = ScriptedIo(Arc::new(Mutex::new(IoState {
@@ -332,6 +362,11 @@ fn one(st: &mut Stats, seed: u64) {
         flush_err: if case.err_site == Some("flush") { Some(kind) } else { None },
         shutdown_err: if case.err_site == Some("shutdown") { Some(kind) } else { None },
         shutdown_called: false,
+        shutdown_pendings,
+        s_delay_ms,
+        s_waker: None,
+        s_wake_at: None,
+        shutdown_completed: false,
         error_returned: None,
         calls: 0,
         note: None,
@@ -500,6 +535,11 @@ fn one(st: &mut Stats, seed: u64) {
                                 }
                                 if !ios.shutdown_called {
                                     fail(st, "half-close-not-propagated".into(), "the far application finished but the local side was never shut down".into());
+                                } else if !ios.shutdown_completed {
+                                    fail(st, "completed-before-half-close-done".into(), format!("the bridge resolved Ok although the local side's shutdown had not completed yet (it answered Pending and still had {} more to go): the half-close was abandoned half-way", ios.shutdown_pendings));
+                                }
+                                if shutdown_pendings > 0 {
+                                    st.target("bridges_completed_after_multi_poll_shutdown", 1);
                                 }
                             }
                         }
@@ -520,8 +560,8 @@ fn one(st: &mut Stats, seed: u64) {
                     } else {
                         st.count("legitimately_pending", 1);
                         // half-close must still have been propagated while the other direction is open
-                        if case.far == "finish" && case.local_end == "idle" && (!ios.shutdown_called || ios.received.len() as u64 != far_total) {
-                            fail(st, "half-close-not-propagated".into(), format!("far application finished: local shutdown called = {}, local received {} of {far_total}", ios.shutdown_called, ios.received.len()));
+                        if case.far == "finish" && case.local_end == "idle" && (!ios.shutdown_completed || ios.received.len() as u64 != far_total) {
+                            fail(st, "half-close-not-propagated".into(), format!("far application finished: local shutdown completed = {}, local received {} of {far_total}", ios.shutdown_completed, ios.received.len()));
                         }
                         if case.local_end == "eof" && case.far == "starve" {
                             // nothing to assert on the starved direction
